@@ -79,6 +79,20 @@ def reference_accepts(model, root, ginc):
 ODD_CTX = ("straddle", "region-in-nonpublic", "label-in-cregion")
 
 
+def odd_ctx(ents, n):
+    """the odd-interleaving context an entity sits in: its own or that of an enclosing class"""
+    e = ents.get(n)
+    while e:
+        if (e.get("ctx") or "") in ODD_CTX:
+            return e["ctx"]
+        if e["kind"] == "enumval" and e.get("of"):
+            e = ents.get(e["of"])
+        else:
+            e = ents.get(e.get("owner")) if e.get("owner") else None
+    return ""
+
+
+
 def compute_status(model, mode, ents=None):
     """-> (status: name -> 'must'|'mustnot'|'unspec', referenced: set of type names that live entities refer to).
 
@@ -165,6 +179,8 @@ def compute_status(model, mode, ents=None):
             v = "must"
         else:
             v = "unspec"
+        if v == "must" and any(odd_ctx(allents, r) for r in e["refs"]):
+            v = "unspec"                 # its signature names a type whose access the listed region findings distort
         if groups and v != "mustnot":
             deps[n] = groups
             st[n] = "mustnot"            # until the fixpoint says its types are referred to
@@ -178,7 +194,7 @@ def compute_status(model, mode, ents=None):
             return True                  # listed as an element (without accessors); its type gets a stub
         if e["kind"] == "typedef" and not e["owner"] and not e["ns"]:
             return True                  # "a typedef counts as a declaration" of its struct, whatever file it is in
-        return (e.get("ctx") or "") in ODD_CTX     # what the tool makes of these is a listed finding, not settled
+        return bool(odd_ctx(allents, n))     # what the tool makes of these is a listed finding, not settled
 
     referenced = set()
     while True:
@@ -292,8 +308,9 @@ def judge(model, mode, backend, occ, ents=None):
     for n, e in ents.items():
         s = st[n]
         places = occ.get(n, set())
-        k, tag, cx = e["kind"], e["tag"], e.get("ctx") or ""
+        k, tag, cx = e["kind"], e["tag"], (odd_ctx(model["ents"], n) or e.get("ctx") or "")
         sig = f"{tag},{k}" + (f",{cx}" if cx else "")
+        cnt[f"judged_tag_{tag}"] = cnt.get(f"judged_tag_{tag}", 0) + 1
         if s == "unspec":
             cnt["unspecified_ignored"] += 1
             continue
@@ -493,7 +510,7 @@ def run_case(ctx, case):
 
 def make_cases(chk):
     rng = random.Random(f"C04:{chk.seed}:{chk.tier}")
-    n = chk.pick(150, 2000)
+    n = chk.pick(300, 2000)
     cases = []
     for i in range(n):
         tree = rng.random() < 0.4
@@ -523,6 +540,12 @@ def main(chk):
         "lists/typedefs, typedef names, friends, static globals, function-like macros, forcetype'd published members, "
         "element records (without accessors) of members whose type is private",
     ]
-    chk.min_conclusive = chk.pick(100, 1200)
+    chk.min_conclusive = chk.pick(200, 1400)
     chk.run_cases(__name__, make_cases(chk))
     chk.extra["entities_generated"] = chk.counters.get("entities", 0)
+    # Appendix D: one row per gate -- how many classified names (must / must-not / unspecified) carried each tag
+    chk.extra["judged_per_tag"] = {k[len("judged_tag_"):]: v for k, v in sorted(chk.counters.items())
+                                   if k.startswith("judged_tag_")}
+    missing_rows = [t for t in visgen.TAGS if t != "unspec" and not chk.extra["judged_per_tag"].get(t)]
+    if missing_rows:
+        raise core.HarnessError("workload did not exercise the gates of tags: " + ", ".join(missing_rows))
